@@ -10,6 +10,12 @@ class VariationalOperator(Protocol):
         pass
 
 
+def _repair_only_outside(genomes: np.ndarray, repaired: np.ndarray, lower_bounds: np.ndarray, upper_bounds: np.ndarray) -> np.ndarray:
+    # Coordinates already inside the box stay where they are; rounding must not push a repaired coordinate outside.
+    inside = (genomes >= lower_bounds) & (genomes <= upper_bounds)
+    return np.where(inside, genomes, np.clip(repaired, lower_bounds, upper_bounds))
+
+
 def apply_bounds(genomes: np.ndarray, bounds: np.ndarray, method: str) -> np.ndarray:
     lower_bounds = bounds[:, 0]
     upper_bounds = bounds[:, 1]
@@ -26,9 +32,9 @@ def apply_bounds(genomes: np.ndarray, bounds: np.ndarray, method: str) -> np.nda
         is_odd_flip = np.mod(flips, 2) == 1
         reflected_genomes = np.where(is_odd_flip, range_size - mod_genomes, mod_genomes)
         # Return genomes to their original positions with bounds applied
-        return lower_bounds + reflected_genomes
+        return _repair_only_outside(genomes, lower_bounds + reflected_genomes, lower_bounds, upper_bounds)
     elif method == "toroidal":
         range_size = upper_bounds - lower_bounds
-        return lower_bounds + (genomes - lower_bounds) % range_size
+        return _repair_only_outside(genomes, lower_bounds + (genomes - lower_bounds) % range_size, lower_bounds, upper_bounds)
     else:
         raise ValueError(f"Unknown method: {method}")
